@@ -365,7 +365,12 @@ def _run(pid, mod, t, s, a, scratch, t0, cf):
             print(f"VIOLATION property={pid} replay={path}")
         return 1
     if inconclusive:
-        for r in inconclusive[:10]:
+        shown = set()
+        for r in inconclusive:
+            key = r[-200:]
+            if key in shown or len(shown) >= 4:
+                continue
+            shown.add(key)
             print(f"INCONCLUSIVE property={pid} reason={r[-700:] if len(r) > 700 else r}")
         return 3
     print(f"{pid}: held on what was observed")
